@@ -407,7 +407,7 @@ func genStub(t *rapid.T) StubCase {
 }
 
 func TestC09Stub(t *testing.T) {
-	vlib.Check(t, 2500, 40000, func(rt *rapid.T) {
+	vlib.Check(t, 6000, 80000, func(rt *rapid.T) {
 		c := genStub(rt)
 		var st stubStats
 		f := propStub(c, &st)
